@@ -21,6 +21,7 @@ STRLIT = ["linux", "linux2", "lin", "win32", "win", "darwin", "nt", "posix", "",
 # the other quote character, '#' (real platform_version strings look like this: "#1 SMP Wed Feb  1 12:00:00 UTC 2023")
 HOSTILE_STRLIT = ["Feb  1", "a\tb", " lead", "trail ", "x and y", "(x or y)", "it's", "#1 SMP  PREEMPT", "a  b  c"]
 PYV = ["2.7", "3.0", "3.1", "3.6", "3.7", "3.8", "3.9", "3.10", "3.11", "3.12"]
+PYIN_LISTS = ["3.8, 3.9", "3.8,3.9", "3.10, 3.11", "2.7, 3.12", "3.8", "3.6, 3.7, 3.8"]
 PYV1 = ["3", "2", "3.8.0", "3.10.0"]  # other spellings of python_version values: bare major, X.Y.0
 PYFV = ["2.7", "2.7.18", "3.0", "3.1.5", "3.6", "3.6.0", "3.6.2", "3.7", "3.7.0", "3.7.9", "3.8.0", "3.8.1", "3.9",
         "3.10", "3.10.0", "3.10.4", "3.11", "3.12.1"]
@@ -75,6 +76,8 @@ def atom(rnd: random.Random, cfg: Cfg, strvars=None, strlit=None) -> str:
         pool = {"python_version": PYV + (PYV1 if cfg.pyv1 else []), "python_full_version": PYFV, "platform_release": REL}[var]
         r = rnd.random()
         if r < 0.12 and cfg.pyin and var == "python_version":
+            if rnd.random() < 0.6:
+                return f"{var} {rnd.choice(['in', 'not in'])} {q(rnd.choice(PYIN_LISTS))}"  # recurring literals
             vals = rnd.sample(PYV, rnd.randint(1, 3))
             return f"{var} {rnd.choice(['in', 'not in'])} {q(rnd.choice([', ', ',']).join(vals))}"
         if r < 0.2 and cfg.tilde:
@@ -160,6 +163,11 @@ def build(t, on_node=None):
         v = build(t[1], on_node) & build(t[2], on_node)
     elif k == "or":
         v = build(t[1], on_node) | build(t[2], on_node)
+    elif k in ("mof", "uof"):
+        from dep_logic.markers import MarkerUnion, MultiMarker
+
+        kids = [build(c, on_node) for c in t[1:]]
+        v = (MultiMarker if k == "mof" else MarkerUnion).of(*kids)
     elif k == "only":
         v = build(t[1], on_node).only(*t[2])
     elif k == "exclude":
@@ -183,6 +191,8 @@ def tree_text(t) -> str:
         return k.upper()
     if k in ("and", "or"):
         return f"({tree_text(t[1])} {'&' if k == 'and' else '|'} {tree_text(t[2])})"
+    if k in ("mof", "uof"):
+        return ("MultiMarker" if k == "mof" else "MarkerUnion") + ".of(" + ", ".join(tree_text(c) for c in t[1:]) + ")"
     if k == "only":
         return f"{tree_text(t[1])}.only({', '.join(t[2])})"
     if k == "exclude":
@@ -196,7 +206,7 @@ def tree_atoms(t) -> int:
     if t[0] == "m":
         return n_atoms(t[1])
     return sum(tree_atoms(c) for c in t[1:] if isinstance(c, list) and c and isinstance(c[0], str) and c[0] in
-               ("m", "and", "or", "only", "exclude", "noextras", "str", "any", "empty"))
+               ("m", "and", "or", "only", "exclude", "noextras", "str", "any", "empty", "mof", "uof"))
 
 
 # ------------------------------------------------------------------------------------------------
